@@ -579,15 +579,22 @@ fn run_single_program(
                         unsafe {
                             libs::close(fds.0);
 
+                            // the reader may already be gone (command not
+                            // found, failed redirection, a program that does
+                            // not read): the write must not kill the shell.
+                            // SIGPIPE is ignored only around the write; no
+                            // child is forked in between.
+                            libc::signal(libc::SIGPIPE, libc::SIG_IGN);
                             let mut f = File::from_raw_fd(fds.1);
-                            match f.write_all(redirect_from.1.clone().as_bytes()) {
+                            let mut data = redirect_from.1.clone().into_bytes();
+                            data.push(b'\n');
+                            match f.write_all(&data) {
                                 Ok(_) => {}
+                                Err(ref e) if e.kind() == std::io::ErrorKind::BrokenPipe => {}
                                 Err(e) => println_stderr!("cicada: write_all: {}", e),
                             }
-                            match f.write_all(b"\n") {
-                                Ok(_) => {}
-                                Err(e) => println_stderr!("cicada: write_all: {}", e),
-                            }
+                            drop(f);
+                            libc::signal(libc::SIGPIPE, libc::SIG_DFL);
                         }
                     }
                 }
